@@ -64,6 +64,7 @@ func (g *KV) Get(key string) (string, error) {
 		g.log("Get", n, "injected", Event{"k": g.k(key)})
 		return "", ErrInjected
 	}
+	defer g.P.effect()()
 	v, err := g.B.Get(key)
 	if !g.Quiet {
 		res := "ok"
@@ -94,6 +95,7 @@ func (g *KV) Set(key, value string) error {
 		g.log("Set", n, "injected", Event{"k": g.k(key)})
 		return ErrInjected
 	}
+	defer g.P.effect()()
 	err := g.B.Set(key, value)
 	if kind == "after" {
 		g.log("Set", n, "injected-after", Event{"k": g.k(key), "v": value})
@@ -114,6 +116,7 @@ func (g *KV) Delete(key string) error {
 		g.log("Delete", n, "injected", Event{"k": g.k(key)})
 		return ErrInjected
 	}
+	defer g.P.effect()()
 	err := g.B.Delete(key)
 	if kind == "after" {
 		g.log("Delete", n, "injected-after", Event{"k": g.k(key)})
@@ -165,6 +168,7 @@ func (g *KV) CommitBatch(b sorted.BatchMutation) error {
 		g.log("CommitBatch", n, "injected", Event{"sets": gb.sets, "dels": gb.dels})
 		return ErrInjected
 	}
+	defer g.P.effect()()
 	err := g.B.CommitBatch(gb.BatchMutation)
 	if kind == "after" {
 		g.log("CommitBatch", n, "injected-after", Event{"sets": gb.sets, "dels": gb.dels})
@@ -193,6 +197,7 @@ func (g *KV) Find(start, end string) sorted.Iterator {
 		g.log("Find", n, "injected", Event{"start": g.k(start), "end": g.k(end)})
 		return errIter{ErrInjected}
 	}
+	defer g.P.effect()()
 	if !g.Quiet {
 		g.log("Find", n, "ok", Event{"start": g.k(start), "end": g.k(end)})
 	}
